@@ -188,6 +188,12 @@ def make_factory(kind, value):
             return value
 
         return f
+    if kind == "factory_kwargs":
+        def h(shape, **kw):
+            # the value shows how many of the optional keywords (name, arg_index, signature) arrived
+            return value * (1 + len(kw))
+
+        return h
     if kind == "factory_raise":
         def g(shape):
             raise RuntimeError("factory failed")
